@@ -3,19 +3,65 @@ import json, os
 
 VERIF = os.path.dirname(os.path.dirname(os.path.abspath(__file__)))
 
+TB = ('Trusted: Coq 8.16.1 kernel + vm_compute; hand-written model under coq/Model tied to /repo by the correspondence run of the check '
+      '(same inputs through the real code and the model on binary64); harness/generators/emitters in /verif; Go toolchain; random '
+      'streams and math.Exp taken from the Go binary as oracles. ')
+
+
+def claim(text, note, technique, ref, category='proof'):
+    return dict(category=category, text=text, design_ref='DESIGN.md §6 ' + ref, note=TB + note, technique=technique)
+
+
 CLAIMED = {
-    'C04': dict(
-        category='proof',
-        text='Theorems (Properties/C04.v, generic over any carrier with OrdLaws): the model of AlternativeResults.Ranking returns the '
-             'permutation sorted by (rounded value desc, id asc), its links are exactly same-value others plus the next lower distinct value, '
-             'and it is invariant under permutation of its input; checker C04_ok is sound for that specification. Tie to the code: the '
-             'model is run (vm_compute, binary64) on the same (id,value) lists as the real Ranking(), and C04_ok is evaluated on what the '
-             'real service returned for utility-method requests and their listing-order permutations.',
-        design_ref='DESIGN.md §6 C04',
-        note='Trusted: Coq kernel + vm_compute; hand-written model Model/Rank.v tied by correspondence on sampled inputs; harness and '
-             'generators; float order laws (OrdLaws for binary64) not proved in this development; listing-order invariance of the '
-             'per-alternative values is checked metamorphically on the code, proved for the ranking function.',
-        technique='Coq proof of ranking model + vm_compute correspondence and checker on Go outputs'),
+    'C01': claim('Theorems (Properties/C01.v): every ranking builder of the model (utility, sequential, majority tie groups, ELECTRE) is well-formed for any '
+                 'evaluations; the search order loses nothing; no bias changes the considered set, parameter kind or current choice; hence '
+                 'decide_wf: every accepted request with ANY bias sequence lists exactly choseToMake (+ currentChoice) with links inside the '
+                 'result, never the own alternative, never twice. Tie: checker C01_ok on every real response over all seven methods; '
+                 'structure correspondence of the ranking builders on the implementation\'s own evaluations.',
+                 'okv (order laws) assumed for utility values in the generic theorem; unconditional on exact rationals.',
+                 'Coq proof (all methods x all bias sequences) + checker and builder correspondence on Go outputs', 'C01'),
+    'C03': claim('Theorems (Properties/C03.v, exact rationals): OWA value = ascending weights x ascending values (independent of listing order); '
+                 'Choquet grouped computation = textbook integral when sorted neighbours are equal or > 1e-5 apart, within n x 1e-5 otherwise; parsed '
+                 'capacities total on the power set and in [0,1]; weighted sum: ws_value_refuted (the pinned code ignores the weights; recorded finding D2) '
+                 'with the characterisation of what it computes. Tie: checker C03 recomputes the aggregate from each returned entry and the final '
+                 '(post-bias) parameters dumped from the running code; values correspondence model/code.',
+                 'arithmetic theorems over Q, not binary64; comparison up to 1.5e-8 + 1e-9 relative.',
+                 'Coq proof over Qc + vm_compute checker on Go outputs; known finding for weightedSum', 'C03'),
+    'C04': claim('Theorems (Properties/C04.v, any carrier with OrdLaws): the model of Ranking() is the permutation sorted by (rounded value desc, id asc); links = same '
+                 'value others + next lower distinct value; following links reaches exactly the not-higher alternatives; invariant under listing order; checker sound. '
+                 'Tie: model run on the same (id,value) lists as the real Ranking(); checker on real utility responses; listing-order permutations of requests.',
+                 'order laws for binary64 not proved here; listing-order invariance of per-alternative values checked metamorphically.',
+                 'Coq proof of the ranking model + vm_compute correspondence and checker on Go outputs', 'C04'),
+    'C05': claim('Theorems (Properties/C05.v): every distillation partitions the alternatives into non-empty classes numbered consecutively from 1; links = index '
+                 'comparison; not-worse => fully concordant; credibility in [0,1]; termination with explicit fuel bound for non-negative distillation functions '
+                 '(negative_distillation_diverges shows why validation is needed). Model = set-level distillation on original indices. Tie: full response '
+                 'correspondence on electreIII requests + checker recomputing indices and links from the returned entries and the final parameters.',
+                 'matrix bookkeeping of the Go code (Slice/Without) is covered by the correspondence only.',
+                 'Coq proof of the distillation model + vm_compute correspondence on Go outputs', 'C05'),
+    'C06': claim('Theorems (Properties/C06.v, exact rationals): outranking monotone for non-positive slope; covering => qualification order at every cut level => class order in both '
+                 'distillations; identical rows => identical classes; credibility monotone for validated constant thresholds; electre_dominance: the model satisfies the '
+                 'dominance checker; weights scaling leaves credibility unchanged. Tie: dominance/equality checker on every pair of every real response; metamorphic '
+                 'groups (listing order, k x 2^m) on the real code.',
+                 'constant thresholds (the documented domain); a counterexample for slope < -1 thresholds is recorded in Proofs/ElectreOrderFacts.v.',
+                 'Coq proof over Qc + vm_compute checker and metamorphic runs on Go outputs', 'C06'),
+    'C11': claim('Theorems (Properties/C11.v, exact rationals): tournament invariant of the fold; majority_passes_checker: winner first; every other entry names the opponent it last met, '
+                 'reports exactly the two scores, did not score higher, ranked below it; policy case analysis (take_better_policy_spec). Tie: full response correspondence on majority '
+                 'requests (four policies, seeded order, three currentChoice positions) + checker recomputing scores from returned entries.',
+                 'ids must be non-empty strings (witness in Proofs/MajorityFacts.v).',
+                 'Coq proof of the tournament invariant + vm_compute correspondence and checker on Go outputs', 'C11'),
+    'C12': claim('Theorems (Properties/C12.v, any carrier with OrdLaws): aspect_passes_checker: survivors first; eliminated in reverse order; each reports the level/criterion/threshold it '
+                 'really failed after passing every earlier check; stop as soon as one is left. Tie: full correspondence for pairwise distinct weights + checker on all.',
+                 'tied weights: only the order-free clauses (Go breaks ties with draws inside an unstable sort).',
+                 'Coq proof of the elimination walk + vm_compute correspondence and checker on Go outputs', 'C12'),
+    'C13': claim('Theorems (Properties/C13.v, any carrier with OrdLaws): satisfaction_passes_checker: accepted entries report and satisfy their level and fail every earlier one; '
+                 'leftovers report the index after the last level and the worst value of each range; order of acceptance. Tie: full correspondence + checker.',
+                 'levels enumerable within the fuel and every alternative holding every criterion value (both guaranteed by validation).',
+                 'Coq proof of the acceptance walk + vm_compute correspondence and checker on Go outputs', 'C13'),
+    'C14': claim('Theorems (Properties/C14.v, exact rationals): validation = documented ranges; four update rules; strict monotonicity; threshold formula; declared range first; '
+                 'finiteness with explicit bounds; consecutive levels strictly monotone. Tie: the real level sources (as wired in main.go) called directly and compared level by level with the '
+                 'model, plus a series checker on the returned levels.',
+                 'binary64 may differ from Q in the count where a decimal series crosses its bound by less than an ulp; the model on binary64 follows Go.',
+                 'Coq proof over Qc + vm_compute correspondence of the level sources', 'C14'),
 }
 
 PENDING_REASON = 'not claimed yet: model, theorems and correspondence for this property are still being built (see DESIGN.md §9 order of work); no check is registered until it is sound'
